@@ -9,6 +9,8 @@ package main
 
 import (
 	"flag"
+
+	"golang.org/x/tools/go/ssa"
 	"fmt"
 	"os"
 	"runtime/debug"
@@ -118,7 +120,11 @@ func main() {
 			code = summarize(*prop, reps)
 			return
 		}
-		code = finish(*prop, *tier, seed, reps, *verif, time.Since(start).Seconds(), nil)
+		var extra map[string]interface{}
+		if *tier == "thorough" && os.Getenv("SLIMLINT_NO_AUDIT") == "" {
+			extra = map[string]interface{}{"sensitivity_audit": sensitivityAudit(*verif, *prop)}
+		}
+		code = finish(*prop, *tier, seed, reps, *verif, time.Since(start).Seconds(), extra)
 	}()
 	os.Exit(code)
 }
@@ -169,6 +175,18 @@ func dumpEngine(p *Program, what string) {
 		fmt.Println("undecided:", vt.ve.undecided)
 	case "sym":
 		dumpSym(p)
+	case "flat":
+		for _, f := range p.FuncsOf(slimPath) {
+			for _, w := range strings.Split(os.Getenv("FN"), ",") {
+				if w != "" && strings.Contains(funcID(f), w) && f.Synthetic == "" {
+					ps, why := flatten(p, f, nil, func(g *ssa.Function) bool { return pkgPathOf(g) == pkgPathOf(f) })
+					fmt.Println("==", funcID(f), why)
+					for _, x := range ps {
+						fmt.Println("   [", x.pcKey(), "] =>", x.resKey(), x.panics)
+					}
+				}
+			}
+		}
 	case "block":
 		var n int
 		fmt.Sscan(os.Getenv("BLOCK"), &n)
